@@ -1,6 +1,6 @@
 (* Non-vacuity examples and refutation witnesses for C05 (all by computation). *)
 From Coq Require Import ZArith List Bool Arith Lia.
-From PAFC05 Require Import Model Proofs1 Proofs2 Proofs3 Proofs4 Proofs5 Proofs6.
+From PAFC05 Require Import Model Proofs1 Proofs2 Proofs3 Proofs4 Proofs5 Proofs6 Machine.
 Import ListNotations.
 Open Scope Z_scope.
 
@@ -121,3 +121,22 @@ Example w_pyswarms_pbest :
   pyswarms_pbest_convert Z Z.sub zneghalf 1 zprior [1] [[1]; [5]] [-2; -10] = Some [mkS 1 0 1 [(1, 1)]; mkS 5 0 1 [(1, 5)]]
   /\ Forall2 (fun x c => zneghalf c = zL x + zprior x) [[1]; [5]] [-2; -10].
 Proof. split; [vm_compute; reflexivity | repeat constructor]. Qed.
+
+(* ---- Machine.v: non-vacuity.  A history with every kind of use; `sound_on` holds for the code's policy when no
+   reduction occurs, and the run is not trivial (the cached answer is handed out, the derived objects answer anew) *)
+Definition wm_ops : list (op Z) :=
+  [OInstance Z; OIndex Z; ODerive Z (DCopy Z); OInstance Z;
+   ODerive Z (DAdd Z [@mkS Z 12 0 1 [(1, 13); (2, 23)]]); OInstance Z; OVector Z;
+   ODerive Z (DThreshold Z (fun w => Z.ltb 0 w)); OInstance Z; OIndex Z].
+Example wm_no_reduction : no_reduction Z wm_ops.
+Proof. simpl. exact I. Qed.
+Example wm_sound : sound_on Z Z.ltb (code_policy Z) wm_ops.
+Proof. apply sound_code. exact wm_no_reduction. Qed.
+Example wm_run :
+  run Z Z.ltb (code_policy Z) (m_groups, m_samples) None wm_ops
+  = [RVec Z (Some [11; 21]); RIdx Z (Some 1%nat); RDerived Z; RVec Z (Some [11; 21]); RDerived Z;
+     RVec Z (Some [13; 23]); RVec Z (Some [13; 23]); RDerived Z; RVec Z (Some [13; 23]); RIdx Z (Some 2%nat)].
+Proof. vm_compute. reflexivity. Qed.
+Example wm_fixed_on_refutation_history :
+  run Z Z.ltb (fixed_policy Z) (m_groups, m_samples) None m_ops = expected Z Z.ltb (m_groups, m_samples) m_ops.
+Proof. vm_compute. reflexivity. Qed.
